@@ -13,6 +13,7 @@ import (
 	"time"
 
 	"github.com/pilosa/pilosa/logger"
+	"github.com/pilosa/pilosa/syswrap"
 	"verif/simrt"
 )
 
@@ -57,6 +58,13 @@ func newL2(c *simrt.Ctx) *l2 {
 	os.MkdirAll(c.Dir+"/frag", 0777)
 	if p.Knob("queue", 0) > 0 {
 		h.queue = newSnapshotQueue(int(p.Knob("queuedepth", 2)), int(p.Knob("queue", 1)), logger.NopLogger)
+	}
+	if p.Knob("fewfiles", 0) != 0 && h.queue != nil {
+		// (only with a snapshot queue, as in a server: without one a snapshot runs inside the
+		// write that triggered it, a combination the server never uses)
+		syswrap.SetMaxFileCount(0)
+	} else {
+		syswrap.SetMaxFileCount(500000)
 	}
 	return h
 }
@@ -113,6 +121,7 @@ func (h *l2) close() {
 }
 
 func (h *l2) shutdown() {
+	syswrap.SetMaxFileCount(500000)
 	if h.queue != nil {
 		close(h.queue)
 	}
@@ -483,6 +492,8 @@ func (h *l2) read(op simrt.Op) {
 		h.fullCheck()
 	case "rblocks":
 		h.checkBlocks()
+	case "rlog":
+		h.checkLog()
 	case "twin":
 		h.twinCheck(I[0], I[1])
 	case "rtop":
@@ -779,6 +790,9 @@ func l2Knobs(r *simrt.Rand, kind int, g *l2Gen) map[string]int64 {
 		"maxopn":     simrt.Pick(r, int64(2), 5, 12, 10000),
 		"queue":      simrt.Pick(r, int64(0), 0, 1, 2),
 		"queuedepth": simrt.Pick(r, int64(1), 2, 100),
+		// 1: the process is over its open-file limit (max-file-count), so the fragment
+		// closes its data file after every operation and reopens it for the next write
+		"fewfiles": simrt.Pick(r, int64(0), 0, 0, 0, 0, 1),
 	}
 }
 
